@@ -242,6 +242,40 @@ pub struct Outcome {
 }
 
 /// Execute a history in-process with all oracles.
+/// one step of a history against a server state
+fn exec_request(cache: &mut Cache, op: &Op) -> Value {
+    match op.clone() {
+        Op::Open(d, t) | Op::Change(d, t) => {
+            cache.invalidate(&uri(d));
+            cache.analyze(uri(d), t);
+            serde_json::to_value(cache.get_diagnostics(&uri(d))).unwrap()
+        }
+        Op::Close(d) => {
+            cache.invalidate(&uri(d));
+            Value::Null
+        }
+        Op::Hover(d, l, c) => match cache.hover(&uri(d), Position::new(l, c)) {
+            Some((msg, range)) => json!({"contents": {"kind": "markdown", "value": msg}, "range": range}),
+            None => Value::Null,
+        },
+        Op::Def(d, l, c) => serde_json::to_value(cache.goto_definition(&uri(d), Position::new(l, c))).unwrap(),
+        Op::Refs(d, l, c, w) => serde_json::to_value(cache.references(&uri(d), Position::new(l, c), w)).unwrap(),
+        Op::Completion(d, l, c) => serde_json::to_value(cache.completion(CompletionParams {
+            text_document_position: TextDocumentPositionParams { text_document: TextDocumentIdentifier { uri: uri(d) }, position: Position::new(l, c) },
+            work_done_progress_params: Default::default(),
+            partial_result_params: Default::default(),
+            context: None,
+        }))
+        .unwrap(),
+        Op::Formatting(d) => serde_json::to_value(cache.formatting(DocumentFormattingParams {
+            text_document: TextDocumentIdentifier { uri: uri(d) },
+            options: FormattingOptions { tab_size: 2, insert_spaces: true, ..Default::default() },
+            work_done_progress_params: Default::default(),
+        }))
+        .unwrap(),
+    }
+}
+
 pub fn run_inprocess(ops: &[Op]) -> Result<Outcome, Violation> {
     let mut cache = Cache::default();
     let mut model: BTreeMap<usize, String> = BTreeMap::new();
@@ -260,36 +294,7 @@ pub fn run_inprocess(ops: &[Op]) -> Result<Outcome, Violation> {
             lw::catch(move || {
                 let cache = cache_ref;
                 let cache: &mut Cache = cache.0;
-                match op2 {
-                    Op::Open(d, t) | Op::Change(d, t) => {
-                        cache.invalidate(&uri(d));
-                        cache.analyze(uri(d), t);
-                        serde_json::to_value(cache.get_diagnostics(&uri(d))).unwrap()
-                    }
-                    Op::Close(d) => {
-                        cache.invalidate(&uri(d));
-                        Value::Null
-                    }
-                    Op::Hover(d, l, c) => match cache.hover(&uri(d), Position::new(l, c)) {
-                        Some((msg, range)) => json!({"contents": {"kind": "markdown", "value": msg}, "range": range}),
-                        None => Value::Null,
-                    },
-                    Op::Def(d, l, c) => serde_json::to_value(cache.goto_definition(&uri(d), Position::new(l, c))).unwrap(),
-                    Op::Refs(d, l, c, w) => serde_json::to_value(cache.references(&uri(d), Position::new(l, c), w)).unwrap(),
-                    Op::Completion(d, l, c) => serde_json::to_value(cache.completion(CompletionParams {
-                        text_document_position: TextDocumentPositionParams { text_document: TextDocumentIdentifier { uri: uri(d) }, position: Position::new(l, c) },
-                        work_done_progress_params: Default::default(),
-                        partial_result_params: Default::default(),
-                        context: None,
-                    }))
-                    .unwrap(),
-                    Op::Formatting(d) => serde_json::to_value(cache.formatting(DocumentFormattingParams {
-                        text_document: TextDocumentIdentifier { uri: uri(d) },
-                        options: FormattingOptions { tab_size: 2, insert_spaces: true, ..Default::default() },
-                        work_done_progress_params: Default::default(),
-                    }))
-                    .unwrap(),
-                }
+                exec_request(cache, &op2)
             })
         };
         let kind = format!("{op:?}").split('(').next().unwrap_or("").to_string();
@@ -453,6 +458,41 @@ pub fn run_inprocess(ops: &[Op]) -> Result<Outcome, Violation> {
                         if !range_inside(&text, &r) {
                             return Err(Violation { sig: "range-outside:Formatting".into(), what: format!("step {step}: formatting range {r:?} outside the document"), replay: hist() });
                         }
+                    }
+                }
+            }
+        }
+        // ---- the answer must come from the latest text and from nothing else: a fresh server
+        // that has only seen this document's latest text gives the same answer (differential
+        // against a session without history; catches replies that are stale, shifted or lost)
+        if let Op::Hover(d, ..) | Op::Def(d, ..) | Op::Refs(d, ..) | Op::Completion(d, ..) | Op::Formatting(d) = op {
+            if let Some(text) = model.get(d).cloned() {
+                let op3 = op.clone();
+                let dd = *d;
+                let fresh = lw::catch(move || {
+                    let mut c = Cache::default();
+                    c.analyze(uri(dd), text);
+                    let v = exec_request(&mut c, &op3);
+                    c.invalidate(&uri(dd));
+                    v
+                });
+                match fresh {
+                    Ok(want) => {
+                        if want != val {
+                            let show = |v: &Value| {
+                                let s = v.to_string();
+                                s.chars().take(300).collect::<String>()
+                            };
+                            return Err(Violation {
+                                sig: format!("session-differs-from-fresh:{kind}"),
+                                what: format!("step {step} {op:?}: the session answers {} but a fresh server that has only seen the latest text answers {}", show(&val), show(&want)),
+                                replay: hist(),
+                            });
+                        }
+                    }
+                    Err(p) => {
+                        let loc = p.split(" at ").last().unwrap_or("").rsplit('/').next().unwrap_or("").to_string();
+                        return Err(Violation { sig: format!("panic:{kind}:{loc}"), what: format!("step {step} {op:?} panicked in a fresh server: {p}"), replay: hist() });
                     }
                 }
             }
